@@ -60,7 +60,7 @@ def comptime_callers(chk):
     upv_obligations(chk, tag="comptime-caller:", consts=True)
 
 
-KINDS = ("plain", "place", "subscript", "temp")
+KINDS = ("plain", "place", "subscript", "subscript-copyable", "temp")
 
 
 def mk_dfg(setitem, getitem):
@@ -71,7 +71,10 @@ def mk_dfg(setitem, getitem):
     return SObj(cls, {})
 
 
-def ports(chk):
+def ports(chk, tag="", replay=None):
+    """`subscript` / `subscript-copyable`: a borrowed place under a subscript whose element type is not /
+    is copyable — a classical element lent to a function generic in a non-copyable type variable
+    (mem_swap(xs[0], xs[3])) is written back like a qubit is."""
     e = mk_engine(chk)
     e.func_info(EC, "ExprCompiler._update_inout_ports")
     m = e.module(EC)
@@ -109,8 +112,8 @@ def ports(chk):
                         args.append(SObj(ClassVal("TempExpr", builtin=True), {"i": i}))
                     else:
                         place = SObj(ClassVal("Place", builtin=True), {"i": i})
-                        if k == "subscript":
-                            sub = SObj(ClassVal("SubscriptPlace", builtin=True), {"i": i})
+                        if k.startswith("subscript"):
+                            sub = SObj(ClassVal("SubscriptPlace", builtin=True), {"i": i, "ty": SObj(ClassVal("Ty", builtin=True), {"copyable": k == "subscript-copyable", "droppable": k == "subscript-copyable"})})
                             sub.fields["setitem_call"] = SObj(ClassVal("SetitemCall", builtin=True), {"value_var": SObj(ClassVal("Var", builtin=True), {"i": i}), "call": ("SETITEM-CALL", i)})
                             place._sub = sub
                             place.fields["sub"] = sub
@@ -141,7 +144,7 @@ def ports(chk):
                 for i, kd in enumerate(kinds):
                     if kd == "plain":
                         continue
-                    if kd in ("place", "subscript"):
+                    if kd in ("place", "subscript", "subscript-copyable"):
                         want.append((i, wires[k]))
                     k += 1
                 # places updated: exactly the borrowed places, each with the wire of its rank, in order
@@ -149,7 +152,7 @@ def ports(chk):
                 ok = got == want
                 # subscripts: value_var gets the updated element and the setitem call is compiled afterwards
                 for i, kd in enumerate(kinds):
-                    if kd == "subscript":
+                    if kd.startswith("subscript"):
                         idx_set = [j for j, x in enumerate(log) if x[0] == "set" and x[1].cls.name == "Place" and x[1].fields["i"] == i]
                         idx_var = [j for j, x in enumerate(log) if x[0] == "set" and x[1].cls.name == "Var" and x[1].fields["i"] == i]
                         idx_call = [j for j, x in enumerate(log) if x[0] == "visit" and x[1] == ("SETITEM-CALL", i)]
@@ -157,19 +160,20 @@ def ports(chk):
                         if ok:
                             rank = [j for j in range(len(kinds)) if kinds[j] != "plain"].index(i)
                             ok = log[idx_var[0]][2] == ("element-of", wires[rank])
-                ok = ok and len([x for x in log if x[0] == "visit"]) == sum(1 for kd in kinds if kd == "subscript")
+                ok = ok and len([x for x in log if x[0] == "visit"]) == sum(1 for kd in kinds if kd.startswith("subscript"))
                 return z3.BoolVal(bool(ok))
-            chk.prove_paths(f"_update_inout_ports[{','.join(kinds) or 'no-args'}]:k-th-returned-wire->k-th-borrowed-argument/\\temporaries-consume-theirs/\\all-wires-consumed/\\subscript-write-back-after-update",
-                            paths, post, func=f"{EC}:ExprCompiler._update_inout_ports", replay=lambda m_: {"script": ORACLE + REPLAY_ONE, "input": {"ops": ["three(array(0, 0, 0), a, b)"]}})
+            chk.prove_paths(f"{tag}_update_inout_ports[{','.join(kinds) or 'no-args'}]:k-th-returned-wire->k-th-borrowed-argument/\\temporaries-consume-theirs/\\all-wires-consumed/\\subscript-write-back-after-update",
+                            paths, post, func=f"{EC}:ExprCompiler._update_inout_ports",
+                            replay=replay or (lambda m_: {"script": ORACLE + REPLAY_ONE, "input": {"ops": ["three(array(0, 0, 0), a, b)"]}}))
             n_obl += 1
     # too few / too many returned wires are detected
     def t_extra(it):
         EC_cls = it.lookup_global(m, "ExprCompiler")
         self_ = SObj(EC_cls, {"visit": Builtin("visit", lambda x: "W"), "ctx": None, "dfg": mk_dfg(lambda p, w: None, lambda p: None)})
         it.call_method(self_, "_update_inout_ports", [[], [("ret", 0)], SObj(ClassVal("FT", builtin=True), {"inputs": []})])
-    chk.prove_paths("_update_inout_ports:a-returned-wire-nobody-claims-is-an-assertion-failure", e.explore(t_extra),
+    chk.prove_paths(f"{tag}_update_inout_ports:a-returned-wire-nobody-claims-is-an-assertion-failure", e.explore(t_extra),
                     lambda p: z3.BoolVal(p.kind == "raise" and p.raised(e, "AssertionError")), func=f"{EC}:ExprCompiler._update_inout_ports")
-    chk.record("_update_inout_ports:all-argument-shapes-explored", n_obl >= 80, str(n_obl), kind="reachability")
+    chk.record(f"{tag}_update_inout_ports:all-argument-shapes-explored", n_obl >= 150, str(n_obl), kind="reachability")
     chk.use_engine(e)
 
 
